@@ -145,6 +145,11 @@ func metaAlphabet() []lx.Op {
 		// the later revisions at the (earlier) date of each write — revision order and date
 		// order disagree (seeded change C17 ordered the PIT revision lookup by date)
 		{Kind: "post", Name: "create-future-with-meta", Postings: []lx.P{p("world", "a", "USD", "3")}, Meta: map[string]string{"k": "f0"}, TSOff: &fut},
+		// back-dated, with metadata for an account that may already have some: the new account
+		// revision is dated at the instant of the WRITE, not at the transaction's (earlier)
+		// timestamp — a read at a point in time between the two must not see it yet (seeded
+		// change C17c dated the account rows of a transaction with its timestamp)
+		{Kind: "post", Name: "create-backdated-accmeta-a", Postings: []lx.P{p("world", "a", "USD", "4")}, AccMeta: map[string]map[string]string{"a": {"kyc": "done"}}, TSOff: &back},
 	}
 }
 
